@@ -44,7 +44,7 @@ BOUND = {
 REQUIRED_CLASSES = [
     'sp_found', 'sp_rejected', 'sp_field_none', 'sp_field_value_only', 'sp_field_with_variance',
     'atom_element', 'atom_isotope', 'atom_rejected', 'weight_blank_raises', 'weight_present', 'mass_absent_raises', 'mass_present',
-    'cold', 'warm', 'nearmiss_hits_other_row', 'nearmiss_rejected', 'attenuation_ok', 'attenuation_array', 'attenuation_int64', 'attenuation_float32',
+    'cold', 'warm', 'nearmiss_hits_other_row', 'nearmiss_rejected', 'attenuation_ok', 'attenuation_array', 'attenuation_same_number_other_unit', 'attenuation_int64', 'attenuation_float32',
 ]
 
 DIR = os.path.dirname(os.path.abspath(atoms_mod.__file__))
@@ -402,6 +402,24 @@ def run_attenuation(case, rec):
                 rec.viol('Material.attenuation_coefficient', 'shape', f'scalar wavelength gave dims {mu.dims}')
                 continue
             judge(mu, [lv], n_value, 'scalar')
+        # the same Material object asked for the same *number* in another unit (and again in the first unit): the answer
+        # depends on the physical wavelength only, not on what this object was asked before
+        other = {'angstrom': 'nm', 'nm': 'angstrom', 'm': 'angstrom'}[lu]
+        for unit_seq in ((lu, other, lu), (other, lu)):
+            for u in unit_seq:
+                rec.transitions += 1
+                rec.states += 1
+                num = 2.5
+                mu = mat.attenuation_coefficient(sc.scalar(num, unit=u))
+                got = float(mu.to(unit='1/m', dtype='float64').value)
+                lam = Fraction(num) * LENGTH[u]
+                want = (Fraction(n_value) / dunit_len**3) * (Fraction(sig_s[0]) * BARN + Fraction(sig_a[0]) * BARN * lam / REF_LAMBDA)
+                rec.validated += 1
+                err = abs(Fraction(got) - want) / want
+                if not err <= Fraction(1, 10**14):
+                    rec.viol('Material.attenuation_coefficient', 'depends_on_earlier_query', f'{name}: same Material asked for {num} {u} after {unit_seq}: mu={got!r} 1/m, exact {float(want)!r}', unit=u, sequence=list(unit_seq))
+                else:
+                    rec.cls('attenuation_same_number_other_unit')
         # other wavelength dtypes: the law does not depend on how the number is stored
         if lu != 'm':
             for dtype, tol_note in (('int64', 'int'), ('int32', 'int'), ('float32', 'f32')):
